@@ -454,6 +454,15 @@ def main(argv=None):
         print("CHECKER-ERROR: %s: %s" % (type(err).__name__, err))
         traceback.print_exc()
         return 3
+    finally:
+        # stop the worker pool here: left to the interpreter's shutdown its __del__ prints a spurious traceback
+        if verify.POOL is not None:
+            try:
+                verify.POOL.terminate()
+                verify.POOL.join()
+            except Exception:
+                pass
+            verify.POOL = None
 
 
 def write_baseline(prop):
